@@ -51,7 +51,7 @@ type WriteCase struct {
 
 var writeTreePool = []string{"main.go", "pkg/a.go", "pkg/sub/b.go", "docs/readme.md", "nested/dir/x.txt", "Makefile", "data/", "nested/.hidden", "spokfile.tmp", "spokfile.bak", ".spokfile.swp", "spokfile~"}
 var writeFlags = []string{"--show", "--vars", "--fmt", "--init", "--force", "--quiet", "--json", "--debug"}
-var safeCmds = []string{"echo hi", "true", "printf x", "echo {{.V}}", "echo a b  c", "test -f main.go", "echo done 1>&2"}
+var safeCmds = []string{"echo hi", "true", "printf x", "echo {{.V}}", "echo a b  c", "test -f main.go", "echo done 1>&2", "printf 'working\rdone'"}
 var invalidSources = map[string][]string{
 	"lexerr":   {"task build( {\n", "X := \"unterminated\n", "task t() {\n    echo hi\n", "$$$\n", "task t() -> {\n}\n"},
 	"parseerr": {"X :=\n", "X\n", "task t(\"a\" \"b\") -> (,", "task () -> (\n"},
